@@ -1,5 +1,295 @@
 package main
 
-func childMain(args []string) int { return 0 }
+// Child-process executor: operations whose outcome may be a crash, a fatal stack overflow or a
+// hang run in `vx child`, one request per line (`op<TAB>file-with-input`), one answer per line.
+// The parent (childPool) classifies: answer / child died (crash) / no answer in time (hang).
 
-func extractRest(l *loaded, genDir, jsonDir string) error { return nil }
+import (
+	"bufio"
+	"context"
+	"errors"
+	"fmt"
+	"io"
+	"os"
+	"os/exec"
+	"runtime/debug"
+	"strings"
+	"sync"
+	"time"
+
+	goerrors "github.com/ajitpratap0/GoSQLX/pkg/errors"
+	"github.com/ajitpratap0/GoSQLX/pkg/formatter"
+	"github.com/ajitpratap0/GoSQLX/pkg/gosqlx"
+	"github.com/ajitpratap0/GoSQLX/pkg/linter"
+	"github.com/ajitpratap0/GoSQLX/pkg/linter/rules/keywords"
+	"github.com/ajitpratap0/GoSQLX/pkg/linter/rules/whitespace"
+	"github.com/ajitpratap0/GoSQLX/pkg/sql/ast"
+	"github.com/ajitpratap0/GoSQLX/pkg/sql/parser"
+	"github.com/ajitpratap0/GoSQLX/pkg/sql/security"
+	"github.com/ajitpratap0/GoSQLX/pkg/sql/tokenizer"
+)
+
+func errCode(err error) string {
+	if err == nil {
+		return "ok"
+	}
+	var e *goerrors.Error
+	if errors.As(err, &e) {
+		return string(e.Code)
+	}
+	if errors.Is(err, context.Canceled) {
+		return "ctx-canceled"
+	}
+	if errors.Is(err, context.DeadlineExceeded) {
+		return "ctx-deadline"
+	}
+	return "unstructured"
+}
+
+// entryPoints: every public entry point named by C01, keyed by a short name.
+var entryPoints = map[string]func(in []byte) error{
+	"tokenize": func(in []byte) error {
+		t, _ := tokenizer.New()
+		_, err := t.Tokenize(in)
+		return err
+	},
+	"tokenizectx": func(in []byte) error {
+		t, _ := tokenizer.New()
+		_, err := t.TokenizeContext(context.Background(), in)
+		return err
+	},
+	"parse": func(in []byte) error { _, err := gosqlx.Parse(string(in)); return err },
+	"parsebytes": func(in []byte) error { _, err := gosqlx.ParseBytes(in); return err },
+	"parsectx": func(in []byte) error {
+		_, err := gosqlx.ParseWithContext(context.Background(), string(in))
+		return err
+	},
+	"parsetimeout": func(in []byte) error { _, err := gosqlx.ParseWithTimeout(string(in), time.Minute); return err },
+	"validate":     func(in []byte) error { return gosqlx.Validate(string(in)) },
+	"recovery": func(in []byte) error {
+		_, errs := gosqlx.ParseWithRecovery(string(in))
+		if len(errs) > 0 {
+			return errs[0]
+		}
+		return nil
+	},
+	"parser.parsebytes":    func(in []byte) error { _, err := parser.ParseBytes(in); return err },
+	"parser.validate":      func(in []byte) error { return parser.Validate(string(in)) },
+	"parser.validatebytes": func(in []byte) error { return parser.ValidateBytes(in) },
+	"parser.dialect": func(in []byte) error {
+		_, err := parser.ParseWithDialect(string(in), "mysql")
+		return err
+	},
+	"strict": func(in []byte) error {
+		t, _ := tokenizer.New()
+		toks, err := t.Tokenize(in)
+		if err != nil {
+			return err
+		}
+		p := parser.NewParser(parser.WithStrictMode())
+		_, err = p.ParseFromModelTokens(toks)
+		return err
+	},
+	"positions": func(in []byte) error {
+		t, _ := tokenizer.New()
+		toks, err := t.Tokenize(in)
+		if err != nil {
+			return err
+		}
+		p := parser.NewParser()
+		_, err = p.ParseFromModelTokensWithPositions(toks)
+		return err
+	},
+	"format": func(in []byte) error {
+		_, err := gosqlx.Format(string(in), gosqlx.DefaultFormatOptions())
+		return err
+	},
+	"formatter": func(in []byte) error {
+		_, err := formatter.New(formatter.Options{}).Format(string(in))
+		return err
+	},
+	"sql": func(in []byte) error {
+		tree, err := gosqlx.Parse(string(in))
+		if err != nil {
+			return err
+		}
+		_ = tree.SQL()
+		_ = tree.Format(ast.ReadableStyle())
+		_ = tree.Format(ast.CompactStyle())
+		return nil
+	},
+	"extract": func(in []byte) error {
+		tree, err := gosqlx.Parse(string(in))
+		if err != nil {
+			return err
+		}
+		_ = gosqlx.ExtractTables(tree)
+		_ = gosqlx.ExtractColumns(tree)
+		_ = gosqlx.ExtractFunctions(tree)
+		_ = gosqlx.ExtractTablesQualified(tree)
+		_ = gosqlx.ExtractColumnsQualified(tree)
+		_ = gosqlx.ExtractMetadata(tree)
+		return nil
+	},
+	"scan": func(in []byte) error {
+		s := security.NewScanner()
+		_ = s.ScanSQL(string(in))
+		tree, err := gosqlx.Parse(string(in))
+		if err != nil {
+			return err
+		}
+		_ = s.Scan(tree)
+		return nil
+	},
+	"inspect": func(in []byte) error {
+		tree, err := gosqlx.Parse(string(in))
+		if err != nil {
+			return err
+		}
+		n := 0
+		ast.Inspect(tree, func(ast.Node) bool { n++; return true })
+		ast.ReleaseAST(tree)
+		return nil
+	},
+	"lint": func(in []byte) error {
+		l := linter.New(
+			whitespace.NewTrailingWhitespaceRule(), whitespace.NewMixedIndentationRule(),
+			whitespace.NewConsecutiveBlankLinesRule(1), whitespace.NewIndentationDepthRule(4, 4),
+			whitespace.NewLongLinesRule(100), whitespace.NewRedundantWhitespaceRule(),
+			keywords.NewKeywordCaseRule(keywords.CaseUpper),
+		)
+		_ = l.LintString(string(in), "in.sql")
+		return nil
+	},
+}
+
+func childMain(args []string) int {
+	debug.SetMaxStack(256 << 20) // a fatal stack overflow costs 256 MB, not 1 GB
+	in := bufio.NewReaderSize(os.Stdin, 1<<16)
+	out := bufio.NewWriter(os.Stdout)
+	for {
+		line, err := in.ReadString('\n')
+		if err != nil {
+			return 0
+		}
+		parts := strings.SplitN(strings.TrimRight(line, "\n"), "\t", 2)
+		if len(parts) != 2 {
+			fmt.Fprintln(out, "bad-request")
+			out.Flush()
+			continue
+		}
+		data, err := os.ReadFile(parts[1])
+		if err != nil {
+			fmt.Fprintln(out, "bad-file")
+			out.Flush()
+			continue
+		}
+		ans := runEntry(parts[0], data)
+		fmt.Fprintln(out, ans)
+		out.Flush()
+	}
+}
+
+func runEntry(op string, data []byte) (ans string) {
+	defer func() {
+		if r := recover(); r != nil {
+			ans = "panic " + strings.ReplaceAll(fmt.Sprint(r), "\n", " ")
+		}
+	}()
+	if strings.HasPrefix(op, "x:") {
+		return childExtra(op[2:], data)
+	}
+	f := entryPoints[op]
+	if f == nil {
+		return "bad-op"
+	}
+	return errCode(f(data))
+}
+
+// ---------------------------------------------------------------------------------------------
+// parent side
+
+type childProc struct {
+	cmd *exec.Cmd
+	in  io.WriteCloser
+	out *bufio.Reader
+}
+
+type childPool struct {
+	mu   sync.Mutex
+	self string
+	c    *childProc
+	n    int
+}
+
+func newChildPool() *childPool {
+	self, _ := os.Executable()
+	return &childPool{self: self}
+}
+
+func (p *childPool) start() error {
+	cmd := exec.Command(p.self, "child")
+	cmd.Env = append(os.Environ(), "GOMEMLIMIT=6GiB", "GOTRACEBACK=single")
+	in, _ := cmd.StdinPipe()
+	outp, _ := cmd.StdoutPipe()
+	cmd.Stderr = nil
+	if err := cmd.Start(); err != nil {
+		return err
+	}
+	p.c = &childProc{cmd, in, bufio.NewReaderSize(outp, 1<<16)}
+	return nil
+}
+
+// Run executes op on data in the child. Returns the answer, or "crash" when the child died
+// (panic escaped the recover in runEntry cannot happen; a runtime fatal error can), or "hang".
+func (p *childPool) Run(op string, data []byte, timeout time.Duration) string {
+	p.mu.Lock()
+	defer p.mu.Unlock()
+	if p.c == nil {
+		if err := p.start(); err != nil {
+			return "child-start-failed"
+		}
+	}
+	p.n++
+	path := fmt.Sprintf("%s/.work/child-%d-%d.in", verifDir, os.Getpid(), p.n%4)
+	_ = os.MkdirAll(verifDir+"/.work", 0o755)
+	if err := os.WriteFile(path, data, 0o644); err != nil {
+		return "child-io"
+	}
+	defer os.Remove(path)
+	if _, err := io.WriteString(p.c.in, op+"\t"+path+"\n"); err != nil {
+		p.kill()
+		return "crash"
+	}
+	type rd struct {
+		s   string
+		err error
+	}
+	ch := make(chan rd, 1)
+	c := p.c
+	go func() {
+		s, err := c.out.ReadString('\n')
+		ch <- rd{s, err}
+	}()
+	select {
+	case r := <-ch:
+		if r.err != nil {
+			p.kill()
+			return "crash"
+		}
+		return strings.TrimRight(r.s, "\n")
+	case <-time.After(timeout):
+		p.kill()
+		return "hang"
+	}
+}
+
+func (p *childPool) kill() {
+	if p.c != nil {
+		_ = p.c.cmd.Process.Kill()
+		_, _ = p.c.cmd.Process.Wait()
+		p.c = nil
+	}
+}
+
+func (p *childPool) Close() { p.mu.Lock(); p.kill(); p.mu.Unlock() }
